@@ -34,7 +34,10 @@ SPEC = {
                    "(stored name within it); the files given to the model are the REFERENCE reading of what was "
                    "written (own decoder), the real parser's reading is an observable; 5% of the cases (kind weeks): the expired files of one run end on the same DATE at different "
                    "instants and zone offsets (00:00Z, 03:00Z, 23:59:59Z, +02:00, +05:30, -08:00 ...), in a third "
-                   "of them on two dates a week apart: one report per date from all files of that date; a core "
+                   "of them on two dates a week apart: one report per date from all files of that date; 6% of the weeks have two approved programs whose package paths NEST (P and P/e), P "
+                   "listing e/<rest> and P/e recording <rest>; in 10% of the cases near-miss names differ from an "
+                   "approved name by bytes that are not valid UTF-8 (names are sent to the model as encoding/json "
+                   "renders them: U+FFFD per stray byte); a core "
                    "program whose base name starts with `local.` (example.com/tools/local.agent); "
                    "10% of the cases (kind seq) are HISTORIES: this one process runs a new "
                    "uploader two or three times on the same directory while the count files change in between "
@@ -74,7 +77,7 @@ SPEC = {
                   "through findWork and are not generated.",
     "assumptions": [
         "rates, SampleRate and X are non-negative, non-NaN float64 values (config range [0,1]); their order is the order of their bit patterns",
-        "encoding/json round-trips the report (names are valid UTF-8); the reports are compared as parsed structures",
+        "encoding/json round-trips the report; a name that is not valid UTF-8 appears in the reports with U+FFFD for every stray byte (the harness applies that rendering to the names it sends to the model); the reports are compared as parsed structures",
         "the model starts from the reference reading of the written count files (harness decoder of the documented stack-name compression); counter.Parse agreeing with it is observed per file (C06 proves it)",
         "the gate (mode on, week not too old, as-of before the data) is an input boolean here; its computation is property C02",
         "histories: each upload.Run builds a new uploader (empty parse cache) and the directory does not change DURING a run; grouping of expired files by week and LastWeek are C07/C09 (one week expires per run in the suite)",
